@@ -662,7 +662,9 @@ func checkBatch(c *Case, v *Verdict) {
 			return
 		}
 	}
-	if is("C17") {
+	if is("C17") && dev.ErrKind == 0 {
+		// (a stream that failed during the call is not an entropy stream: an
+		// implementation may legitimately decide such a chunk by the fallback)
 		for _, fb := range out.Fallbacks {
 			off, sz := fb[0], fb[1]
 			if off < 0 || sz <= 0 || off+sz > n {
